@@ -35,7 +35,10 @@ pub fn guarded<T>(f: impl FnOnce() -> T) -> Option<T> {
 
 /// Installs a silent panic hook (panics are outcomes, not noise).
 pub fn quiet_panics() {
-    panic::set_hook(Box::new(|_| {}));
+    // QV_LOUD=1 keeps the default hook (panic message and location on stderr) for debugging a replay
+    if std::env::var_os("QV_LOUD").is_none() {
+        panic::set_hook(Box::new(|_| {}));
+    }
 }
 
 /// Drives a runner: for every non-empty, non-comment stdin line call `f(fields)`
